@@ -3,10 +3,13 @@
 Every class of gates.py is enumerated on every run; `gate.decompose()` is executed by the real
 code on a gate with symbolic parameters placed on non-ascending qubits, and the obligation
      forall th, exists phi,  U(decomposition) = e^{i phi} U(gate)
-is proved by Base/TrigMat.mcheck_phase_sound.  Multi-controlled X: see Model/MCX.v (boolean
-reversible-circuit model, proved for every number of controls) + structural correspondence.
+is proved by Base/TrigMat.mcheck_phase_sound.  Multi-controlled X: C08/MCXProps.v -- use_toffolis=True over
+the boolean reversible-circuit model (C08/Reversible.v), use_toffolis=False (congruent Toffolis) over the
+signed-permutation model (C08/Signed.v); both proved for every number of controls and tied by exact
+gate-list correspondence (harness/c08_mcx_model.py).  Bounded instances (symbolic matrices m <= 5, all
+2^n basis states of the real gate lists n <= 9/11) stay as independent cross-checks.
 """
-STATIC = ["Base/TrigMat", "C08/Reversible", "C08/MCXProps"]
+STATIC = ["Base/TrigMat", "C08/Reversible", "C08/Signed", "C08/MCXProps"]
 import random
 
 import numpy as np
@@ -76,7 +79,8 @@ def mcx_boolean(run, rng):
     list is evaluated as a reversible boolean circuit in Coq on ALL 2^n basis states (checker proved
     sound in C08/Reversible.v): flips the target iff all controls are 1, restores every work bit."""
     gg = qtrace.mod("qibo.gates.gates")
-    header = ("From Coq Require Import List Bool Arith.\nFrom QV Require Import Base.Mat C08.Reversible.\n"
+    from harness import c08_mcx_model as mm
+    header = ("From Coq Require Import List Bool Arith.\nFrom QV Require Import Base.Mat C08.Reversible C08.Signed.\n"
               "Import ListNotations.\n")
     items, meta = [], {}
     nmax = 9 if run.tier == "quick" else 11
@@ -106,6 +110,21 @@ def mcx_boolean(run, rng):
             meta[name] = {"controls": cs, "target": t, "free": free, "ngates": len(dec)}
             run.case(["mcxbool", m, nf, cs, t, free])
             run.sample({"obligation": name, **meta[name]})
+            # use_toffolis=False on the same placement: the real gate list, seven-gate blocks grouped into CONG
+            # tokens after a literal check, evaluated as a SIGNED permutation on all 2^n basis states
+            # (Signed.signed_check, proved sound): bits of the multi-controlled X and sign + everywhere
+            sname = f"mcxsigned_m{m}_f{nf}"
+            real = mm.real_decomposition_cong(cs, t, free)
+            if isinstance(real, tuple):
+                w = mm.cong_witness(cs, t, free) if real[0] == "gateset" else {}
+                run.refuted.append(sname)
+                run.find(f"mcx_{real[0]}:{m}:{nf}:False", f"X.decompose(use_toffolis=False) with {m} controls and {nf} free qubits: {real[1]}",
+                         {"controls": cs, "target": t, "free": free, "use_toffolis": False, **w},
+                         concrete=real[0] == "raises" or bool(w))
+                continue
+            items.append((sname, f"signed_check {n}%nat {qtrace.nat_list(sorted(cs))} {t}%nat {mm.coq_sgate_list(real)}"))
+            meta[sname] = {"controls": cs, "target": t, "free": free, "ntokens": len(real), "use_toffolis": False}
+            run.case(["mcxsigned", m, nf, cs, t, free])
     res, out = run.coq_bools("C08_mcxbool_triage.v", header, items, timeout=900)
     if res is None:
         run.find("coq:C08_mcxbool", "boolean MCX obligations do not compile", {"log": out[-1200:]}, concrete=False)
@@ -118,8 +137,14 @@ def mcx_boolean(run, rng):
     for n_, _ in items:
         if not res[n_]:
             mt = meta[n_]
-            w = mcx_witness(mt)
             run.refuted.append(n_)
+            if mt.get("use_toffolis") is False:
+                w = mm.cong_witness(mt["controls"], mt["target"], mt["free"])
+                run.find(f"mcx:{len(mt['controls'])}:{len(mt['free'])}:False",
+                         "multi-controlled X decomposition with congruent Toffolis is not the multi-controlled X "
+                         "(wrong bits, a disturbed work qubit or a relative phase on some basis state)", {**mt, **w})
+                continue
+            w = mcx_witness(mt)
             run.find(f"mcx:{len(mt['controls'])}:{len(mt['free'])}:True",
                      "multi-controlled X decomposition is not the multi-controlled X (or disturbs a work qubit)", {**mt, **w})
 
@@ -248,6 +273,16 @@ def replay(run, data):
     if key.startswith("mcx_model:"):
         from harness import c08_mcx_model
         c08_mcx_model.replay_model_case(run, data["replay"])
+        return run.finish(rule="replay of one recorded case")
+    rep = data["replay"]
+    if (key.startswith("mcx:") or key.startswith("mcx_gateset:")) and "controls" in rep and "params" not in rep:
+        # multi-controlled X instance: re-execute the real decomposition numerically on every basis state
+        from harness import c08_mcx_model as mm
+        mt = {"controls": list(rep["controls"]), "target": int(rep["target"]), "free": list(rep["free"])}
+        w = (mm.cong_witness(mt["controls"], mt["target"], mt["free"]) if rep.get("use_toffolis") is False
+             else mcx_witness(mt))
+        if w:
+            run.find(key, data["what"], {**rep, **w})
         return run.finish(rule="replay of one recorded case")
     for it in table_items("thorough") + mcx_items("thorough") + circuit_items("thorough"):
         if it.key == key:
